@@ -46,7 +46,10 @@ class WindowManager:
         :rtype: ``None``
         """
         self.current_window_size -= size
-        if self.current_window_size < 0:
+        # A frame of zero length (an empty DATA frame with END_STREAM set) may
+        # arrive while a lowered INITIAL_WINDOW_SIZE has the window below
+        # zero: RFC 7540 Sections 6.9.1 and 6.9.2. It overruns nothing.
+        if size > 0 and self.current_window_size < 0:
             raise FlowControlError("Flow control window shrunk below 0")
 
     def window_opened(self, size):
